@@ -50,7 +50,7 @@ REQUIRED_THEOREMS = ["Gv.Props.C03." + n for n in [
     "phylip_counts_as_read", "phylip_header_consistent", "phylip_eos_blank", "phylip_eos_blank_to_eof",
     "phylip_multi_counts", "phylip_outcome_full", "phylip_multi_outcome",
     # Nexus: counts of the DIMENSIONS commands / TAXA block as the parser read them (Proofs/NexusHeader.lean)
-    "nexus_counts_as_read", "nexus_header_consistent_partial"]]
+    "nexus_counts_as_read", "nexus_header_consistent_partial", "nexus_header_counterexample_endblock"]]
 TRUSTED = ["bufio.Reader / UTF-8 rune decoding (inputs with bytes >= 128 are judged by the predicate only)",
            "python watchdog: hang = no answer within TIMEOUT",
            "tools/extract/fmtfacts.go: recognises the proposed guards syntactically; the models are parametric in these facts"]
@@ -85,7 +85,10 @@ PARTIAL = [
     "`declaredNexus` reads off the raw bytes (two independent tokenisations; nexus_header_consistent_partial states the "
     "clause under that hypothesis) — checked on the implementation by the oracle predicate on every run (the scanner now "
     "skips the `#NEXUS` word, which has no `;`: before, it never saw the DATA block of an ordinary file and the clause was "
-    "vacuous). The multi-Phylip stream loop is now PROVED to terminate without panic / hang for the repaired code "
+    "vacuous). That hypothesis is NOT a theorem: nexus_header_counterexample_endblock (kernel-evaluated) — the parser does not know "
+    "ENDBLOCK, stays in the DATA block and lets a later `dimensions` overwrite ntax: `#NEXUS begin data; dimensions ntax=9; "
+    "endblock; begin trees; dimensions ntax=1; matrix a AC ; end;` succeeds with one row (reproduced on the built binary; not "
+    "produced by the generators, reported as a candidate finding). The multi-Phylip stream loop is now PROVED to terminate without panic / hang for the repaired code "
     "(phylip_multi_outcome: every Parse call that hands on an alignment consumes input), every alignment it hands on being "
     "well formed and consistent with its own header line (phylip_multi_wellformed, phylip_multi_counts)",
     "ParseAlignmentAuto: modelled as a first-byte dispatch over the single-parser models (C02.autodetect_selects_written_format)",
